@@ -28,3 +28,12 @@ PROPS = {
         "design_ref": "7/C01", "assumptions": E1_ASSUME,
     },
 }
+
+# Merge per-engine registries (props_<engine>.py).
+import glob as _glob, importlib.util as _ilu, os as _os
+for _f in sorted(_glob.glob(_os.path.join(_os.path.dirname(_os.path.abspath(__file__)), "props_*.py"))):
+    _spec = _ilu.spec_from_file_location(_os.path.basename(_f)[:-3], _f)
+    _m = _ilu.module_from_spec(_spec)
+    _spec.loader.exec_module(_m)
+    ENGINES.update(getattr(_m, "ENGINES_ADD", {}))
+    PROPS.update(getattr(_m, "PROPS_ADD", {}))
